@@ -17,7 +17,8 @@ struct Api64 : Interface<Api64> {
   NOP_METHOD(Pick, Inner(const Variant<Inner, Outer>& v, std::vector<int> list));
   NOP_METHOD(Nothing, void());
   NOP_METHOD(Maybe, Result<ErrorEnum, int>(int x));
-  NOP_INTERFACE_API(Sum, Length, Pick, Nothing, Maybe);
+  NOP_METHOD(Zero, int());
+  NOP_INTERFACE_API(Sum, Length, Pick, Nothing, Maybe, Zero);
 };
 
 struct Api32 : Interface<Api32> {
@@ -54,7 +55,8 @@ void Drive(W* w, R* r) {
       Api64::Sum::Bind(&FreeSum),
       Api64::Length::Bind([](const std::string& s) { return s.size(); }),
       Api64::Pick::Bind([](const Variant<Inner, Outer>&, std::vector<int>) { return Inner{}; }),
-      Api64::Maybe::Bind([](int x) { return Result<ErrorEnum, int>{x}; }));
+      Api64::Maybe::Bind([](int x) { return Result<ErrorEnum, int>{x}; }),
+      Api64::Zero::Bind([]() { return 7; }));
   (void)one(&receiver);
   (void)two(&receiver);
   (void)five(&receiver);
@@ -83,6 +85,7 @@ void Drive(W* w, R* r) {
   (void)Api64::Pick::Invoke(&sender, Variant<Inner, Outer>{}, std::vector<int>{});
   (void)Api64::Nothing::Invoke(&sender);
   (void)Api64::Maybe::Invoke(&sender, 3);
+  (void)Api64::Zero::Invoke(&sender);
   (void)Api32::Echo::Invoke(&sender, "x");
   (void)Api32::Fixed::Invoke(&sender, std::vector<int>{1, 2, 3});
   (void)Api32::Fixed::Invoke(&sender, std::array<int, 3>{{1, 2, 3}});
